@@ -72,9 +72,15 @@ def scenario(shape):
                           'after restart the stored height is below the last completed full flush',
                           {'signature': 'lost-committed-height', 'stored': h, 'committed': committed[0]})
                 symx.observe(f'restart{crashes}.height', h)
-                if h >= 0:
-                    chain.check_index(sim, f'restart{crashes}', upto=h)
+                all_outs = [o for b in blocks for tx in b.txs for o in tx.outs]
+                try:
+                    chain.check_index(sim, f'restart{crashes}', upto=h, query_outs=all_outs)
+                except chain.ReaderSpins as e:
+                    eng.prove(False, 'after restart a reader spins on transactions beyond the stored height',
+                              {'signature': 'reader-spins', 'message': str(e)})
                 start = h + 1
+                # resume with a different schedule than before the crash: one full flush at the end
+                shape = dict(shape, flush=[])
         if crashes == 0:
             # only the uninterrupted run reaches this point with crashes == 0; it is the
             # reference run (checked in C01); nothing more to prove here
@@ -89,21 +95,26 @@ def shapes(tier):
     cbA = {'cb': 'A'}
     sp1 = {'cb': 'B', 'txs': [{'ins': 1, 'outs': 'S'}]}
     sp1A = {'cb': 'B', 'txs': [{'ins': 1, 'outs': 'AC'}]}
+    sp1b = {'cb': 'A', 'txs': [{'ins': 1, 'outs': 'B'}]}
     sp2 = {'cb': 'A', 'txs': [{'ins': 1, 'outs': 'B'}, {'ins': 1, 'outs': 'C'}]}
     out = []
-    lists = [[cbA, sp1A], [cbA, sp1]]
-    if tier == 'thorough':
-        lists += [[cbA, sp1A, sp2], [{'cb': 'AB'}, sp1, sp1A]]
-    for blocks in lists:
-        n = len(blocks)
-        for s in itertools.product('nhf', repeat=n - 1):
-            if tier == 'quick' and blocks is lists[1] and s[0] == 'n':
+    for blocks in ([cbA, sp1A], [cbA, sp1]):
+        for s in 'nhf':
+            if tier == 'quick' and blocks[1] is sp1 and s == 'n':
                 continue
-            out.append({'blocks': blocks, 'flush': list(s) + ['n'], 'crashes': 1})
+            out.append({'blocks': blocks, 'flush': [s, 'n'], 'crashes': 1})
+    # three blocks: several history-only flushes may be ahead of the UTXO flush when the crash comes
+    three = [('h', 'h'), ('h', 'f')] if tier == 'quick' else list(itertools.product('nhf', repeat=2))
+    for s in three:
+        out.append({'blocks': [cbA, sp1A, sp1b], 'flush': list(s) + ['n'], 'crashes': 1})
     if tier == 'thorough':
+        for s in itertools.product('nhf', repeat=2):
+            out.append({'blocks': [cbA, sp1A, sp2], 'flush': list(s) + ['n'], 'crashes': 1})
+        for s in (('h', 'h'), ('n', 'f'), ('f', 'h')):
+            out.append({'blocks': [cbA, sp1, sp1b], 'flush': list(s) + ['n'], 'crashes': 1})
         out.append({'blocks': [cbA, sp1A], 'flush': ['h', 'n'], 'crashes': 2})
         out.append({'blocks': [cbA, sp1A], 'flush': ['f', 'n'], 'crashes': 2})
-        out.append({'blocks': [cbA, sp1A, sp2], 'flush': ['h', 'f', 'n'], 'crashes': 2})
+        out.append({'blocks': [cbA, sp1A, sp1b], 'flush': ['h', 'h', 'n'], 'crashes': 2})
     return out
 
 
